@@ -15,7 +15,7 @@ SET_PRELUDE = """
 // ---- assumed specification of indexmap::IndexSet<Value> (the dependency's contract): a finite set of
 // element identities; equal elements have equal identities (that is the Hash/Eq law obligations' job)
 pub uninterp spec fn kind_of(id: int) -> int;
-#[derive(PartialEq, Eq)]
+#[derive(PartialEq, Eq, Structural)]
 pub enum ValueKind { Empty, K(int) }
 pub struct Value { pub id: int }
 impl Value {
@@ -178,7 +178,56 @@ pub proof fn lemma_subset_len(a: Set<int>, b: Set<int>)
         plan.dropped.append(relations_unit.__doc__.strip())
 
 
+def literal_unit(plan):
+    """(F) the kind-homogeneity check of `set()` (src/interpreter/src/structures.rs): the statements from
+    `let element_kind = ..` up to (excluding) the construction of the set, verbatim except `return Err(..)` -> `return None`
+    and `for el in &elements` -> index loop; postcondition: the literal is accepted only if every element has the kind of the first"""
+    from vlib import read_repo, extract_fn, VerusUnit, AnchorLost, find_code, match_brace
+    name = "C14.literal.kind_homogeneity"
+    ob = plan.ob(name, "verus", "proved", functions=["src/interpreter/src/structures.rs: set() (kind check fragment)"],
+                 what="a set literal is accepted only if every element has exactly the kind of the first element (so that all elements have the set's element kind)")
+    try:
+        text = read_repo("src/interpreter/src/structures.rs")
+        sig, body = extract_fn(text, "set")
+        a = find_code(body, r"let\s+element_kind\s*=")
+        b = find_code(body, r"#\[cfg\(feature\s*=\s*\"functions\"\)\]")
+        if not a or not b or b.start() < a.start():
+            raise AnchorLost("set(): `let element_kind =` .. `#[cfg(feature = \"functions\")]` region not found")
+        frag = re.sub(r"//[^\n]*", "", body[a.start():b.start()])
+        # return Err(..) -> return None
+        while True:
+            m = re.search(r"return\s+Err\s*\(", frag)
+            if not m:
+                break
+            e = match_brace(frag, m.end() - 1, "(", ")")
+            k = e
+            while frag[k] in " \t\r\n":
+                k += 1
+            frag = frag[:m.start()] + "return None" + frag[k:]
+        frag, n = re.subn(r"for\s+el\s+in\s+&elements\s*\{", "for k_ in 0..elements.len()\n    invariant forall|j: int| 0 <= j < k_ ==> ValueKind::K(kind_of(#[trigger] elements@[j].id)) == element_kind,\n  { let el = &elements[k_];", frag)
+        if n != 1 or "Err(" in frag:
+            raise AnchorLost("set(): the kind-check loop `for el in &elements` not found")
+    except AnchorLost as e:
+        plan.anchor_errors.append((name, str(e)))
+        ob.status, ob.detail = "undecided", "anchor lost: %s" % e
+        return
+    fn = """fn set_kind_check(elements: &Vec<Value>) -> (res: Option<()>)
+  ensures res.is_some() ==> (forall|j: int| 0 <= j < elements@.len() ==> kind_of(#[trigger] elements@[j].id) == kind_of(elements@[0].id)),
+{
+  %s
+  Some(())
+}
+""" % frag.strip()
+    items = [SET_PRELUDE, fn, vlib.verus_canary("canary_lit", "x: u64", [])]
+    plan.verus.append(VerusUnit("c14_literal", vlib.verus_file(items), {"set_kind_check": name}, ["canary_lit"]))
+    plan.dropped.append(literal_unit.__doc__.strip())
+
+
 def plan(plan, tier, seed):
+    try:
+        literal_unit(plan)
+    except Exception as e:
+        plan.anchor_errors.append(("C14.literal.*", repr(e)))
     try:
         metadata_unit(plan)
     except Exception as e:
